@@ -415,8 +415,8 @@ func (s cmap6or10) Lookup(r rune) (GID, bool) {
 	if r < s.firstCode {
 		return 0, false
 	}
-	c := int(r - s.firstCode)
-	if c >= len(s.entries) {
+	c := int64(r) - int64(s.firstCode) // firstCode may be negative for invalid format 10 tables
+	if c >= int64(len(s.entries)) {
 		return 0, false
 	}
 	return GID(s.entries[c]), true
